@@ -6,7 +6,7 @@
 (* subsets on Outer / Inner / the union members and of the context flag;   *)
 (* TLC emits the expected result AND the expected hook trace.              *)
 (***************************************************************************)
-EXTENDS Hooks, Json
+EXTENDS Hooks, Discr, Json
 
 VARIABLES T, v, kind, dir
 
@@ -35,6 +35,28 @@ Shapes == Outers \cup { OuterFwd(ho, hi) : ho \in HookSets, hi \in HookSets }
           \cup { <<"union", <<AT(h), BT(h)>> >> : h \in HookSets }
           \cup { <<"dict", <<"str">>, <<"opt", InnerT(h, FALSE)>> >> : h \in HookSets }
 
+\* ---- a class-level discriminator (Config.discriminator, include_subtypes) on a base class that declares hooks:
+\* Base.from_dict dispatches to the variant, whose (inherited or overriding) hooks run ONCE for the instance
+DOpts == << <<"field", "type">>, <<"include_subtypes", TRUE>> >>
+DBase(hb) == <<"dc", "Ev", <<N>>, Cfg(hb, FALSE) \o << <<"discriminator", DOpts>> >> >>
+DVar(nm, tag, extra, hb, hv) == <<"dc", nm, <<N, extra>>, << <<"bases", <<DBase(hb)>> >>, <<"classvars", << <<"type", S(tag)>> >> >> >> \o Cfg(hv, FALSE)>>
+Fam(hb, hv) == <<"discrfam", DBase(hb), << DVar("Click", "click", <<"x", <<"int">>, <<"req">>, <<>> >>, hb, hv),
+                                            DVar("Key", "key", <<"k", <<"str">>, <<"val", S("q")>>, <<>> >>, hb, {}) >> >>
+Fams == { Fam(hb, hv) : hb \in HookSets, hv \in { {}, {"pre_ser", "post_ser", "pre_deser", "post_deser"} } }
+FamInputs == { Dct(<< <<S("n"), I(10)>>, <<S("type"), S("click")>>, <<S("x"), I(1)>> >>),
+               Dct(<< <<S("type"), S("key")>>, <<S("n"), I(20)>> >>) }
+\* a variant as the hooks see it: hooks it does not declare are the base's (and are logged under the base's name)
+EffVar(V, Bs) == IF HooksOf(V) # {} \/ HooksOf(Bs) = {} THEN V ELSE <<"dc", V[2], V[3], V[4] \o << <<"hooks", HooksOf(Bs)>> >> >>
+TraceName(V, Bs) == IF HooksOf(V) # {} THEN V[2] ELSE Bs[2]
+FamVars(F) == [i \in DOMAIN F[3] |-> EffVar(F[3][i], F[2])]
+FamDec(F, j) == UnpackDiscr(FamVars(F), F[2], DOpts, DefaultCx, j)
+FamTrace(F, j) ==
+  LET hits == { i \in DOMAIN F[3] : OwnTag(F[3][i], "type") = PairsGet(j[2], S("type")) } IN
+  IF hits = {} THEN <<>>
+  ELSE LET i == CHOOSE i \in hits : TRUE
+           tr == DeserTrace(FamVars(F)[i], DefaultCx, j) IN
+       [k \in DOMAIN tr |-> <<tr[k][1], TraceName(F[3][i], F[2]), tr[k][3], tr[k][4]>>]
+
 In(n) == <<"obj", "Inner", <<I(n), S("s")>> >>
 OV(n, u, o) == <<"obj", "Outer", <<I(n), In(n + 1), L(<<In(n + 2), In(n + 3)>>), u, o, Dct(<< <<S("k"), In(n + 5)>> >>)>> >>
 UA(n) == <<"obj", "A", <<I(n), I(7)>> >>
@@ -48,6 +70,7 @@ ValuesOf(S_) ==
 
 Init == T = <<"start">> /\ v = <<"nov">> /\ kind = "start" /\ dir = "none"
 Next == \/ kind = "start" /\ T' \in Shapes /\ v' = v /\ kind' = "type" /\ dir' = dir
+        \/ kind = "start" /\ T' \in Fams /\ v' \in FamInputs /\ kind' = "fam" /\ dir' = "deser"
         \/ kind = "type" /\ T' = T /\ v' \in ValuesOf(T) /\ kind' = "value" /\ dir' \in {"ser", "deser"}
 
 Cx == DefaultCx
@@ -78,6 +101,9 @@ PreBeforePost ==
 Balanced == kind = "value" => Len(SelectSeq(STrace, LAMBDA e : e[1] = "pre_ser")) = Len(SelectSeq(STrace, LAMBDA e : e[1] = "post_ser"))
                               \/ \E i \in DOMAIN STrace : TRUE
 
+\* the dispatching base adds no hook call of its own: once per instance
+FamOnce == kind = "fam" => OncePerInstance(FamTrace(T, v), "post_deser") /\ OncePerInstance(FamTrace(T, v), "pre_deser")
+EmitFam == kind = "fam" => PrintT(ToJson(<<"hookd", T[2], T[3], v, FamDec(T, v), FamTrace(T, v)>>))
 EmitInv == kind = "value" =>
              IF dir = "ser" THEN PrintT(ToJson(<<"hook", T, "ser", v, Wire, STrace>>))
              ELSE PrintT(ToJson(<<"hook", T, "deser", Input, Dec, DTrace>>))
